@@ -1,6 +1,5 @@
 import Bandit.Drv.Core
 import Bandit.ConfigLoad
-import Bandit.ConfigLoadFixed
 /-!
 # Driver ops for configuration loading (C13): `cfgrun`, `cfggen`
 -/
@@ -85,9 +84,8 @@ def opCfgRun (j : Json) : Except String Json := do
   let w := mkWorld j
   let c := mkCli (← j.getObjVal? "cli")
   let ini := match j.getObjVal? "ini" with | .ok v => parseIni v | _ => .absent
-  let fixed := (j.getObjValAs? Bool "fixed").toOption.getD false
-  let out := if fixed then Fixed.run w c ini else run w c ini
-  let regions := Json.arr ((knownRegions w c ini).map Json.str).toArray
+  let out := run w c ini
+  let regions := Json.arr #[]      -- no open known finding for this property
   let paths := strList j "paths"
   match out with
   | .reject r => return Json.mkObj [("kind", "reject"), ("why", rejectName r), ("regions", regions)]
@@ -97,7 +95,7 @@ def opCfgRun (j : Json) : Except String Json := do
       ("kind", "scan"), ("inc", strsJson s.inc), ("exc", strsJson s.exc),
       ("keep", strsJson ((Gen.registry.allIds).filter (keep Gen.registry s.inc s.exc))),
       ("settings", Json.mkObj (s.settings.map fun (k, v) => (String.ofList k, cfgJson v))),
-      ("globs", strsJson s.globs), ("severity", Json.num s.severity), ("confidence", Json.num s.confidence),
+      ("globs", strsJson s.globs), ("severity", Json.num (s.severity : Nat)), ("confidence", Json.num (s.confidence : Nat)),
       ("targets", strsJson s.targets), ("legacy", Json.bool s.legacy),
       ("excluded_paths", strsJson (paths.filter (isExcluded s.globs))),
       ("regions", regions)]
